@@ -30,3 +30,6 @@ for t in mips-linux-gnu mips64el-linux-gnuabi64 powerpc64-linux-gnu powerpc64le-
     clang --target=$t -gdwarf-$v -O1 -c a.c -o $OUT/x_clang_${t%%-*}_v$v.o 2>/dev/null; ok x_clang_${t%%-*}_v$v.o
   done
 done
+# many small units (40 CUs): unit-cache / eviction behaviour across more units than any other corpus image has
+( T=$(mktemp -d); for i in $(seq 1 40); do printf 'struct s%d { int a; char b; };\nstatic int h%d(struct s%d *p) { return p->a + %d; }\nint f%d(int x) { struct s%d v = { x, 1 }; int i, t = 0; for (i = 0; i < x; i++) { t += h%d(&v); } return t; }\n' $i $i $i $i $i $i $i > $T/u$i.c; done
+  gcc -gdwarf-4 -O0 $SH $T/u*.c -o $OUT/x_gcc_v4_many_units.so 2>/dev/null; rm -rf $T ); ok x_gcc_v4_many_units.so
